@@ -27,7 +27,11 @@ type sinkT struct {
 	mu    sync.Mutex
 	lines []string
 	conns int
+	stall bool // the sink has stopped reading (connections stay open): back-pressure on the producer
 }
+
+func (s *sinkT) setStall(v bool) { s.mu.Lock(); s.stall = v; s.mu.Unlock() }
+func (s *sinkT) stalled() bool   { s.mu.Lock(); defer s.mu.Unlock(); return s.stall }
 
 func newSinkT() (*sinkT, error) {
 	ln, err := net.Listen("tcp", "127.0.0.1:0")
@@ -47,6 +51,9 @@ func newSinkT() (*sinkT, error) {
 			go func() {
 				r := bufio.NewReaderSize(c, 1<<20)
 				for {
+					for s.stalled() {
+						time.Sleep(5 * time.Millisecond)
+					}
 					l, err := r.ReadString('\n')
 					if len(l) > 0 && strings.HasSuffix(l, "\n") {
 						s.mu.Lock()
